@@ -26,8 +26,8 @@ FUNCTIONS = ['hotxlfp.formulas.text:CHAR', 'hotxlfp.formulas.text:CODE', 'hotxlf
              'hotxlfp.formulas.text:MID', 'hotxlfp.formulas.text:TRIM', 'hotxlfp.formulas.utils:iflatten',
              'hotxlfp.formulas.utils:parse_number', 'hotxlfp.helper.number:to_number',
              'hotxlfp.grammarparser.parser:FormulaParser.p_expression_arithmetic_operator']
-RULE = ('text: seeded strings of length 0..60 (6 % empty, 6 % one character, 4 % of length 60, 44 % of length 2..11) drawn with '
-        'one of 7 weight profiles from ASCII letters, digits, the 32 punctuation characters, spaces (40 % of them as runs of '
+RULE = ('text: seeded strings of length 0..60 (6 % empty, 6 % one character, 4 % of length 60, 44 % of length 2..11, the '
+        'other 40 % uniform in 0..60) drawn with one of 7 weight profiles from ASCII letters, digits, the 32 punctuation characters, spaces (40 % of them as runs of '
         '1..3), the 33 control characters (0..31, 127), 393 accented Latin letters (U+00C0..U+024F whose upper/lower/title '
         'mappings are one-to-one and agree with case folding) and 131 CJK/kana/Hangul characters (2 outside the BMP), handed to '
         'the formulas as VARIABLES of one shared hotxlfp.Parser. Counts below: quick (thorough), each multiplied by scale. '
@@ -61,8 +61,9 @@ RULE = ('text: seeded strings of length 0..60 (6 % empty, 6 % one character, 4 %
         'len(s) >= 2; lenconcat: both sides non-empty; case: some function changes the string; codechar: n > 127; '
         'codechar_range: always (counts once per range); join: >= 2 non-blank items and a blank or a nested list; subst: '
         'non-empty old text occurring in the string; fn: at least one argument. When a proof or the correspondence broke: the '
-        'whole generator again at scale 6 on the same tier without the fn cases, oracle only, up to the first failure. No time '
-        'or step budget.')
+        'whole generator again at scale 6 on the same tier without the fn cases, oracle only, up to the first failure. A failing '
+        'case is shrunk by dropping single characters of its text fields (s, a, b, old, new, d) as long as the oracle still '
+        'complains about the re-evaluated case. No time or step budget.')
 TRUSTED = ['Python str methods (slicing, replace, join, upper/lower/title, strip), re.sub, chr/ord: modelled on List Char; '
            'case mapping modelled for ASCII only (CaseMap.ascii), non-ASCII case mapping is checked by the oracle only',
            'str() of integers, logicals and blanks is modelled; str() of floats, dates and lists is not (the model answers '
